@@ -383,7 +383,52 @@ func runC11(r *simrt.Run, tier Tier) Outcome {
 		body := fmt.Sprintf("%s(%s)", e.name, strings.Join(vars, ", "))
 		var rows [][]tyE
 		var rule string
-		switch r.Choose(12, "c11.rule.kind") {
+		switch r.Choose(14, "c11.rule.kind") {
+		case 12: // put an element in front of a list column (of the element type, or of another type)
+			ok := true
+			for _, row := range e.rows {
+				if row[0].K != "list" {
+					ok = false
+				}
+			}
+			if ok {
+				for _, row := range e.rows {
+					rows = append(rows, []tyE{row[0]})
+				}
+				et := e.rows[r.Choose(len(e.rows), "c11.cons.row")][0].Args[0]
+				if r.Bool("c11.cons.other") {
+					et = sibling(r, et)
+					perturbed = true
+				}
+				others := ""
+				for i := 1; i < ar; i++ {
+					others += ", _"
+				}
+				rule = fmt.Sprintf("%s(R) :- %s(X%s), R = fn:list:cons(%s, X).", name, e.name, others, genValOf(r, et).Src())
+			} else {
+				rows = e.rows
+				rule = fmt.Sprintf("%s(%s) :- %s.", name, strings.Join(vars, ", "), body)
+			}
+		case 13: // collect one or two columns into a list
+			if ar == 2 && r.Bool("c11.collect.two") {
+				for _, row := range e.rows {
+					rows = append(rows, []tyE{{K: "list", Args: []tyE{{K: "pair", Args: []tyE{row[0], row[1]}}}}})
+				}
+				if r.OneIn(3, "c11.collect.declfirst") {
+					// declared as a list of the first column only
+					rows = nil
+					for _, row := range e.rows {
+						rows = append(rows, []tyE{{K: "list", Args: []tyE{row[0]}}})
+					}
+					perturbed = true
+				}
+				rule = fmt.Sprintf("%s(L) :- %s |> do fn:group_by(), let L = fn:collect(X, Y).", name, body)
+			} else {
+				for _, row := range e.rows {
+					rows = append(rows, []tyE{{K: "list", Args: []tyE{row[0]}}})
+				}
+				rule = fmt.Sprintf("%s(L) :- %s |> do fn:group_by(), let L = fn:collect(X).", name, body)
+			}
 		case 11: // inequality filter against a constant (of the column's type in one row, possibly of no row's type)
 			for _, row := range e.rows {
 				rows = append(rows, []tyE{row[0]})
